@@ -241,3 +241,165 @@ REG.add(Contract("cobra/core/reaction.py", "Reaction.__getstate__", "C12", [("se
 
 KEYS = [KEY_MODEL_GET, KEY_OBJECT_GET, KEY_SPECIES_GET, KEY_RXN_GET]
 ASSUMED_KEYS = ["GPR.__str__"]
+
+
+# ================================================================ Reaction.__setstate__
+def calls(st):
+    return st.ghost.get("pk_calls", ())
+
+
+def global_hook(eng, name):
+    if _cur(eng) == KEY_RXN_SET and name == "GPR":
+        return VFunc("abstract", "pk:GPR")
+    return None
+
+
+def getattr_hook(eng, st, v, name):
+    if _cur(eng) == KEY_RXN_SET and isinstance(v, VFunc) and v.kind == "abstract" and v.a == "pk:GPR" and name == "from_string":
+        return [("ok", st, VFunc("abstract", "pk:GPR.from_string"))]
+    return None
+
+
+def call_abstract_hook(eng, st, f, pos, kw):
+    if f.a == "pk:GPR.from_string":
+        if kw or len(pos) != 1 or not isinstance(pos[0], (VStr, VConc)):
+            raise Unsupported("GPR.from_string with something else than one string")
+        from pyvc.apply import ASSUMED_USED
+        ASSUMED_USED["GPR.from_string"] = REG.get("GPR.from_string").note
+        g = fresh("parsed_rule", Ref)
+        st = st.assume(g != NULL, parsed_from(g) == unwrap(pos[0], "id"))
+        return [("ok", st.setghost("pk_calls", calls(st) + (("GPR.from_string", pos[0], g),)), VRef(g, "GPR"))]
+    return None
+
+
+REG.add(Contract("cobra/core/gene.py", "GPR.from_string", "C12", [("string_gpr", TStr())], [Case("any")], assumed=True, key="GPR.from_string",
+                 note="recorded abstract call: GPR.from_string(text) returns a rule object g (not None) with parsed_from(g) == text and "
+                      "modifies no existing object; that it parses what to_string printed back to an equivalent rule is the bounded text "
+                      "round trip (C08 / C11 driver), not claimed here"))
+
+HOOKS = chain_hooks({"call_method": call_method_hook, "str": str_hook, "global": global_hook, "getattr": getattr_hook,
+                     "call_abstract": call_abstract_hook}, MC.HOOKS)
+
+_RENAMED = {"gene_reaction_rule": "_gene_reaction_rule", "lower_bound": "_lower_bound", "upper_bound": "_upper_bound"}
+_SHAPES = {
+    # the state Reaction.__getstate__ writes: the rule as text
+    "as_written:rule_text": tuple((a, TStr if a == "_gpr" else _ATTR_T[a]) for a in ATTRS["Reaction"]),
+    # a state that carries the rule OBJECT (e.g. an intermediate cobrapy version): kept
+    "rule_object": tuple((a, _ATTR_T[a]) for a in ATTRS["Reaction"]),
+    # an old pickle: attributes that have since been superseded by properties
+    "old_pickle:public_names": tuple((a, _ATTR_T[a]) for a in ATTRS["Reaction"] if a not in ("_gpr", "_lower_bound", "_upper_bound"))
+                               + (("reaction", TStr), ("gene_reaction_rule", TStr), ("lower_bound", TReal), ("upper_bound", TReal)),
+    # an old pickle with the private rule text and without a rule object
+    "old_pickle:private_rule_text": tuple((a, _ATTR_T[a]) for a in ATTRS["Reaction"] if a != "_gpr") + (("_gene_reaction_rule", TStr),),
+}
+
+
+def _state_t(shape):
+    def mk(st, name):
+        items = []
+        for a, t in _SHAPES[shape]:
+            st, v = t().make(st, f"{name}_{a}")
+            items.append((a, v))
+        st, o = alloc_obj(st, "dict", {"pure": True, "pyitems": tuple(items)})
+        return st, VObj(o.oid, "dict", "dict")
+    return mk
+
+
+def _st_items(E):
+    return dict(E.s0.objs[E["state"].oid]["pyitems"])
+
+
+def _me(E):
+    return ident_of(E["self"].oid)
+
+
+def _rs_maps(E, st):
+    it = _st_items(E)
+    dm = E.s0.objs[it["_metabolites"].oid]["dom"]
+    dg = E.s0.objs[it["_genes"].oid]["dom"]
+    mdl = it["_model"].t
+    return dm, dg, mdl
+
+
+def _rs_heap(E, st, done_m, done_g):
+    """`_reaction` / `_model` of every object: the members handled so far list the receiver (and what they listed before) and point
+    at the receiver's model, everything else is as found"""
+    RX0, RX = E.eng.heap_arr(E.s0, "_reaction"), E.eng.heap_arr(st, "_reaction")
+    MO0, MO = E.eng.heap_arr(E.s0, "_model"), E.eng.heap_arr(st, "_model")
+    _, _, mdl = _rs_maps(E, st)
+    x = qv("px", Ref)
+    done = z3.Or(done_m(x), done_g(x))
+    return [FA([x], RX[x] == z3.If(done, z3.Store(RX0[x], _me(E), z3.BoolVal(True)), RX0[x]), patterns=[RX[x]]),
+            FA([x], MO[x] == z3.If(done, mdl, MO0[x]), patterns=[MO[x]])]
+
+
+def _rs_inv_mets(E, Lc):
+    dm, dg, _ = _rs_maps(E, Lc.st)
+    pos = Lc.seq.src[2]
+    return z3.And(*_rs_heap(E, Lc.st, lambda x: z3.And(z3.Select(dm, x), pos[x] < Lc.i), lambda x: z3.BoolVal(False)))
+
+
+def _rs_inv_genes(E, Lc):
+    dm, dg, _ = _rs_maps(E, Lc.st)
+    pos = Lc.seq.src[2]
+    return z3.And(*_rs_heap(E, Lc.st, lambda x: z3.Select(dm, x), lambda x: z3.And(z3.Select(dg, x), pos[x] < Lc.i)))
+
+
+def _rs_post(E):
+    it0 = E.s0.objs[E["state"].oid]["pyitems"]
+    d0 = dict(it0)
+    rec1 = E.s1.objs[E["self"].oid]
+    got = {k[5:]: v for k, v in rec1.items() if isinstance(k, str) and k.startswith("attr:")}
+    want = {}
+    for k, v in it0:
+        if k == "reaction":
+            continue
+        want[_RENAMED.get(k, k)] = v
+    cs = []
+    tr = calls(E.s1)
+    # ---- the rule
+    g1 = got.get("_gpr")
+    if "_gpr" in d0 and isinstance(d0["_gpr"], VRef):
+        cs.append(z3.BoolVal(tr == ()))
+        want["_gpr"] = d0["_gpr"]
+    else:
+        text = d0["_gpr"] if "_gpr" in d0 else want.get("_gene_reaction_rule")
+        ok = len(tr) == 1 and tr[0][0] == "GPR.from_string" and isinstance(g1, VRef) and g1.cls == "GPR" and text is not None
+        cs.append(z3.BoolVal(bool(ok)))
+        if not ok:
+            return z3.BoolVal(False)
+        cs += [g1.t == tr[0][2], g1.t != NULL, parsed_from(g1.t) == unwrap(text, "id"), _b(E.eng.eq(E.s1, tr[0][1], text))]
+        want["_gpr"] = g1
+    # ---- the attributes: the entries of the state under their modern names, nothing else
+    cs.append(z3.BoolVal(set(got) == set(want)))
+    if set(got) != set(want):
+        return z3.BoolVal(False)
+    for k, v in want.items():
+        cs.append(z3.BoolVal(got[k] is v) if isinstance(v, (VObj, VNone)) or isinstance(got[k], (VObj, VNone)) else _b(E.eng.eq(E.s1, got[k], v)))
+    # ---- the back references
+    dm, dg, _ = _rs_maps(E, E.s1)
+    cs += _rs_heap(E, E.s1, lambda x: z3.Select(dm, x), lambda x: z3.Select(dg, x))
+    # the stoichiometry dictionary and the gene set themselves are as found
+    for k in ("_metabolites", "_genes"):
+        r0, r1 = E.s0.objs[d0[k].oid], E.s1.objs[d0[k].oid]
+        cs.append(z3.BoolVal(all(r0.get(f) is r1.get(f) for f in ("dom", "val") if f in r0)))
+    return z3.And(*cs)
+
+
+_rs_cases = []
+for _shape in _SHAPES:
+    _c = Case(_shape, ensures=_rs_post)
+    _c.params_override = {"state": TCustom(_state_t(_shape))}
+    _rs_cases.append(_c)
+
+_RS_HEAP = lambda E, Lc: [("heap", "_reaction"), ("heap", "_model")]  # noqa
+REG.add(Contract("cobra/core/reaction.py", "Reaction.__setstate__", "C12", [("self", TObj("Reaction", {})), ("state", TRef("dict"))], _rs_cases,
+                 key=KEY_RXN_SET,
+                 modifies=lambda E: [("heap", "_reaction"), ("heap", "_model"), ("obj", E["self"]), ("obj", E["state"]),
+                                     ("ghost", "pk_calls", lambda st: ())],
+                 loops={0: LoopSpec(_rs_inv_mets, _RS_HEAP), 1: LoopSpec(_rs_inv_genes, _RS_HEAP)},
+                 note="the receiver is a new object without attributes (cls.__new__), the state a record over the attribute names; "
+                      "`_model` of the state may be None (NULL) or a model"))
+
+KEYS = [KEY_MODEL_GET, KEY_OBJECT_GET, KEY_SPECIES_GET, KEY_RXN_GET, KEY_RXN_SET]
+ASSUMED_KEYS = ["GPR.__str__", "GPR.from_string"]
